@@ -96,7 +96,13 @@ func (f *finisher) worker(workerID string) {
 		case <-controlChans.PauseCh:
 			logger.Debug("received pause event")
 			verifhook.At("pause.ack", "fin."+workerID)
-			controlChans.ResumeCh <- struct{}{}
+			// Wait for the resume, but don't let a pause hold back the shutdown
+			select {
+			case controlChans.ResumeCh <- struct{}{}:
+			case <-f.ctx.Done():
+				logger.Debug("shutting down while paused")
+				return
+			}
 			verifhook.At("pause.resumed", "fin."+workerID)
 			logger.Debug("received resume event")
 		case seed, ok := <-f.inputCh:
